@@ -1,5 +1,5 @@
 //@ unit slice
-//@ serves C13 C02 C14
+//@ serves C13 C14 C02
 //@ include prelude/header.rs
 verus! {
 //@ include prelude/std.rs
@@ -82,6 +82,24 @@ impl SliceFilter {
     broadcast use group_kstr;
 //@ closure 0 arg_of=map params=s
 |s: &dyn ValueView| -> (v: Value) ensures v.vid() == s.vid_of()
+//@ end
+}
+
+// ---------------- size ----------------
+pub struct SizeFilter;
+impl SizeFilter {
+//@ item crates/lib/src/stdlib/filters/mod.rs :: impl Filter for SizeFilter::evaluate
+//@ props C13 C14 C02
+//@ safety C02 C13
+//@ sig fn evaluate(&self, input: &dyn ValueView, _runtime: &dyn Runtime) -> (res: Result<Value>)
+//@ spec
+    ensures
+        res is Ok,
+        // a string counts its characters (never bytes), an array its elements, an object its entries, anything else is 0
+        res matches Ok(v) ==> (input.scalar_of() matches Some(s) ==> v.num() == Some(Num::Int(s.text().chars_view().len() as i64))),     // [C13:size_counts_characters]
+        res matches Ok(v) ==> ((input.scalar_of() is None && input.array_of() is Some) ==> v.num() == Some(Num::Int(input.array_of().unwrap().len() as i64))),   // [C14:size_agrees_with_indexing]
+//@ prologue
+    broadcast use group_kstr;
 //@ end
 }
 
